@@ -91,7 +91,10 @@ def c16(tier):
     small = ["-i16", "-O3", "--bc-int", "--print-ir", "--limit", "-f", "num:3", "junk", "file:A", "file:U", "missing",
              "code:b", "code:u", "--static", "-h"]
     # print options x widths x levels on a fragment whose rendering depends on width and level
-    prt = ["--print-ir", "--print-bc", "--print-jit-bc", "-i16", "-i32", "-i64", "-O0", "-O3", "code:w", "code:b"]
+    # (backend flags included: whichever of them and of the print options comes last decides what happens,
+    # and none of them may change the level)
+    prt = ["--print-ir", "--print-bc", "--print-jit-bc", "-i16", "-i32", "-i64", "-O0", "-O3", "code:w", "code:b",
+           "--inplace", "--bc-int"]
     tp5 = os.path.join(d, "tokens-print.ndjson")
     token_file(prt, tp5)
     res = tlc.run_tlc("Cli", env={"GEN": 1, "MAXLEN": 3 if tier == "quick" else 4, "TOKENS": tp5, "CASES": "/dev/null"},
